@@ -360,7 +360,80 @@ func runC16SharedContext(r *core.Run) {
 	}
 }
 
+// runC16Mixed: k footnotes, each independently referenced 0..2 times from paragraphs, optionally from image alt text (a
+// reference that is numbered while parsing but never rendered) and optionally from the body of another footnote; the
+// alt-text references come first, so that dropped footnotes take the small numbers before the live ones are renumbered.
+// Every combination for k = 3 (thorough 4), paragraphs in ascending and in descending order.
+func runC16Mixed(r *core.Run) {
+	k := core.Pick(r, 3, 4)
+	per := 3 * 2 * k // paragraph references 0..2 × alt reference 0/1 × body reference none or one of the other k-1 (index 0 = none)
+	total := 1
+	for i := 0; i < k; i++ {
+		total *= per
+	}
+	for _, cn := range []string{"footnote", "all+xhtml"} {
+		cfg := core.MustCfg(cn)
+		s := r.Sub("mixed-live-and-dropped/"+cn, fmt.Sprintf("%d footnotes, each referenced 0..2 times from paragraphs, 0..1 times from image alt text and with a body that refers to none or one of the others: all %d combinations × {paragraphs ascending, descending} under %s: same output-consistency oracle", k, total, cn))
+		s.Planned = int64(2 * total)
+		s.Bound = fmt.Sprintf("k=%d combinations=%d orders=2", k, total)
+		core.ForEachIndex(total, core.Workers(), func(w int) func(int) {
+			cv := core.NewConv(cfg)
+			var b strings.Builder
+			return func(ci int) {
+				paras, alts, bodies := make([]int, k), make([]int, k), make([]int, k)
+				x := ci
+				for i := 0; i < k; i++ {
+					v := x % per
+					x /= per
+					paras[i], alts[i], bodies[i] = v%3, (v/3)%2, v/6 // bodies: 0 none, j>0: the j-th other footnote
+				}
+				for _, desc := range []bool{false, true} {
+					b.Reset()
+					for i := 0; i < k; i++ {
+						if alts[i] == 1 {
+							fmt.Fprintf(&b, "![i[^%d]](u)\n\n", i+1)
+						}
+					}
+					for ii := 0; ii < k; ii++ {
+						i := ii
+						if desc {
+							i = k - 1 - ii
+						}
+						for n := 0; n < paras[i]; n++ {
+							fmt.Fprintf(&b, "p%d[^%d]\n\n", n, i+1)
+						}
+					}
+					for i := 0; i < k; i++ {
+						fmt.Fprintf(&b, "[^%d]: D%d", i+1, i+1)
+						if bodies[i] > 0 {
+							j := bodies[i] - 1
+							if j >= i {
+								j++
+							}
+							if j < k {
+								fmt.Fprintf(&b, " x[^%d]", j+1)
+							}
+						}
+						b.WriteString("\n\n")
+					}
+					doc := []byte(b.String())
+					if h, _ := c16Case(s, cv, doc); h != 0 {
+						s.Distinct(h)
+					}
+					if ci%(total/5+1) == 0 && !desc {
+						s.AddSample(core.Q(doc))
+					}
+				}
+			}
+		}, r.Expired)
+		s.States.Store(s.Evals.Load())
+		s.Transitions.Store(s.Evals.Load())
+		s.Done()
+	}
+}
+
 func runC16(r *core.Run) {
+	runC16Mixed(r)
 	runC16SharedContext(r)
 	runC16Perms(r)
 	runC16Prefix(r)
